@@ -19,11 +19,14 @@ RULE = ('random single-book workbooks x all non-empty subsets (quick: random sub
         'through .xlsx (loads().finish()) and through from_dict(...).finish(); probes =IFERROR(cell,"d") and =ISERROR(cell). '
         'Non-trivial = some other formula depends on a faulty cell; distinct = distinct (workbook, fault set).')
 
-KINDS = ['nofunc', 'xlfn', 'nosheet', 'nobook', 'noname', 'reflit']
+KINDS = ['nofunc', 'xlfn', 'nosheet', 'nobook', 'noname', 'reflit', 'deadsheet']
 
 
 def new_run():
     return Run('C14', RULE)
+
+
+rnd_dead = [__import__('random').Random(0)]
 
 
 def fault_node(kind, wb, xlsx):
@@ -39,6 +42,10 @@ def fault_node(kind, wb, xlsx):
         return ('raw', "'[nofile.xlsx]S1'!A1", "#REF!", e_ref), '#REF!'
     if kind == 'noname':
         return ('raw', "'[%s]'!NONAME" % wb.sheets[0][0], 'NONAME', e_ref), '#REF!'
+    if kind == 'deadsheet':
+        # a reference to a deleted sheet, as Excel rewrites it
+        t = rnd_dead[0].choice(['#REF!A1', '#REF!$B$2', '#REF!A1:B2', '#REF!$A:$A', '#REF!2:3'])
+        return ('raw', t, t, e_ref), '#REF!'
     return ('raw', '#REF!', '#REF!', e_ref), '#REF!'
 
 
@@ -75,6 +82,7 @@ def cells_of(r):
 def check(run):
     bookrun.setup()
     rnd = run.rng
+    rnd_dead[0] = rnd
     quick = run.tier == 'quick'
     n = 50 if quick else 900
     tmp = tempfile.mkdtemp(prefix='verif_c14_')
